@@ -165,3 +165,202 @@ def resolve_string_at(payload, off, strict7=True):
     if strict7 and any(b >= 128 for b in t):
         return None
     return t
+
+
+# ------------------------------------------------------------------------------------------
+# what StarCraft reads (C02) and the format's structural rules (C11), from the spec only
+def ref_fields_of(spec):
+    """{'a'|'c': {type id: {field: argument}}} from the specification's argument tables"""
+    return {"a": {r["id"]: {f: a for a, f in r["args"]} for r in spec["actions"]},
+            "c": {r["id"]: {f: a for a, f in r["args"]} for r in spec["conditions"]}}
+
+
+REF_KIND = {  # which specification arguments are references, by argument name
+    "_location": "loc", "_source_location": "loc", "_destination_location": "loc",
+    "_text": "str", "_path_to_wav_in_mpq": "str", "_switch": "switch", "_properties": "cuwp",
+}
+
+
+def game_view(data, spec):
+    layouts = layouts_of(spec)
+    rf = ref_fields_of(spec)
+    chunks = split_chunks(data)
+    view = {"sections": [(n.hex(), len(p)) for n, _, p in chunks], "passthrough": []}
+    first = {}
+    for n, _, p in chunks:
+        if n not in layouts:
+            view["passthrough"].append((n.hex(), p.hex()))
+        first.setdefault(n, p)
+    strp = first.get(b"STR ")
+
+    def text(i):
+        if not i:
+            return None
+        t = resolve_string(strp, 2, i) if strp is not None else None
+        return "?dangling" if t is None else t.hex()
+
+    def nonzero(r):
+        return any(r.values())
+
+    locs, cus = {}, {}
+    if b"MRGN" in first:
+        for i, r in enumerate(fields_of(layouts[b"MRGN"], first[b"MRGN"])["records"]):
+            if nonzero(r):
+                locs[i + 1] = (r["_left_x1"], r["_top_y1"], r["_right_x2"], r["_bottom_y2"], text(r["_string_id"]), r["_elevation_flags"] & 63)
+    view["locs"] = locs
+    if b"UPRP" in first:
+        for i, r in enumerate(fields_of(layouts[b"UPRP"], first[b"UPRP"])["records"]):
+            # presence is judged on what the game reads (owner byte and padding are unused)
+            if any(v for k, v in r.items() if k not in ("_owner_player", "_padding")):
+                cus[i + 1] = (r["_valid_special_properties_flags"] & 31, r["_valid_unit_properties_flags"] & 63, r["_hitpoints_percentage"], r["_shieldpoints_percentage"],
+                              r["_energypoints_percentage"], r["_resource_amount"], r["_units_in_hangar"], r["_flags"] & 31)
+    view["cuwps"] = cus
+    view["upus"] = list(first[b"UPUS"][:64]) if b"UPUS" in first else None
+    view["switches"] = {i: text(v) for i, v in enumerate(fields_of(layouts[b"SWNM"], first[b"SWNM"])["_switch_string_ids"]) if v} if b"SWNM" in first else {}
+    view["wavs"] = {i: text(v) for i, v in enumerate(fields_of(layouts[b"WAV "], first[b"WAV "])["_wav_string_ids"]) if v} if b"WAV " in first else {}
+    for nm in (b"UNIS", b"UNIx"):
+        if nm in first:
+            u = fields_of(layouts[nm], first[nm])
+            key = nm.decode()
+            view[key] = {k: (v if k != "_unit_string_ids" else [text(x) for x in v]) for k, v in u.items() if "weapon" not in k and k != "_unit_default_settings_flags"}
+            view[key]["_unit_default_settings_flags"] = [bool(x) for x in u["_unit_default_settings_flags"]]
+            view[key + ":weapons"] = (u["_unit_base_weapon_damages"], u["_unit_upgrade_weapon_damages"])
+
+    def entry(kind, r):
+        tid = r["_action_id" if kind == "a" else "_condition_id"]
+        m = rf[kind].get(tid)
+        if m is None:
+            return ("raw", tuple(sorted(r.items())))
+        out = {"type": tid, "flags": r["_flags"] & 31, "mask": r["_mask_flag"]}
+        if r["_mask_flag"] == 0x4353:
+            out["bitmask"] = r["_location_id"]
+        for f, a in m.items():
+            k = REF_KIND.get(a)
+            v = r[f]
+            if k == "loc":
+                out[a] = ("loc", locs.get(v, "?missing" if v else None))
+            elif k == "str":
+                out[a] = ("str", text(v))
+            elif k == "switch":
+                out[a] = ("switch", v, view["switches"].get(v))
+            elif k == "cuwp":
+                out[a] = ("cuwp", cus.get(v, "?missing"))
+            else:
+                out[a] = v
+        return ("rich", tuple(sorted((k, repr(v)) for k, v in out.items())))
+
+    trigs = []
+    nth = 0
+    for n, _, p in chunks:
+        if n == b"TRIG":
+            try:
+                tl = fields_of(layouts[b"TRIG"], p)["triggers"]
+            except RefError:
+                tl = []
+            for t in tl:
+                conds, acts = [], []
+                for c in t["conds"]:
+                    if c["_condition_id"] == 0:
+                        break
+                    conds.append(entry("c", c))
+                for a in t["acts"]:
+                    if a["_action_id"] == 0:
+                        break
+                    acts.append(entry("a", a))
+                trigs.append({"conds": conds, "acts": acts, "players": [bool(x) for x in t["players"]], "execFlags": t["execFlags"]})
+    view["triggers"] = trigs
+    return view
+
+
+def struct_valid(data, spec):
+    """list of structural-rule violations of an emitted CHK (empty = valid)"""
+    layouts = layouts_of(spec)
+    rf = ref_fields_of(spec)
+    probs = []
+    try:
+        chunks = split_chunks(data)
+    except RefError as e:
+        return ["not a chunk sequence: %s" % e]
+    first = {}
+    for n, size, p in chunks:
+        if size != len(p):
+            probs.append("chunk %r declares %d bytes, has %d" % (n, size, len(p)))
+        first.setdefault(n, p)
+        lay = layouts.get(n)
+        if lay is None:
+            continue
+        k = lay["kind"]
+        if k == "arrays" and len(p) != sum(w * c for _, w, c in lay["fields"]):
+            probs.append("%s has size %d" % (n.decode(), len(p)))
+        if k == "recsN" and len(p) != lay["n"] * rec_size(lay["fields"]):
+            probs.append("%s has size %d" % (n.decode(), len(p)))
+        if k == "recsEof" and len(p) not in (64 * rec_size(lay["fields"]), 255 * rec_size(lay["fields"])):
+            probs.append("MRGN has size %d (neither 1280 nor 5100)" % len(p))
+        if k == "trig" and len(p) % lay["trigSize"]:
+            probs.append("TRIG size %d is not a multiple of %d" % (len(p), lay["trigSize"]))
+    strp = first.get(b"STR ")
+    nstr = 0
+    if strp is not None:
+        try:
+            nstr = u(strp, 0, 2)
+            for i in range(1, nstr + 1):
+                if resolve_string(strp, 2, i) is None:
+                    probs.append("string id %d: offset outside the section or no terminating NUL" % i)
+                    break
+        except RefError:
+            probs.append("STR shorter than its offset table")
+
+    def chk_str(i, what):
+        if i and (i > nstr):
+            probs.append("%s refers to string id %d, table has %d" % (what, i, nstr))
+
+    locs_nonempty, cu_nonempty = set(), set()
+    try:
+        if b"MRGN" in first:
+            for i, r in enumerate(fields_of(layouts[b"MRGN"], first[b"MRGN"])["records"]):
+                if any(r.values()):
+                    locs_nonempty.add(i + 1)
+                chk_str(r["_string_id"], "location %d" % (i + 1))
+        if b"UPRP" in first:
+            for i, r in enumerate(fields_of(layouts[b"UPRP"], first[b"UPRP"])["records"]):
+                if any(r.values()):
+                    cu_nonempty.add(i + 1)
+        if b"UPUS" in first and b"UPRP" in first and len(first[b"UPUS"]) >= 64:
+            used = {i + 1 for i in range(64) if first[b"UPUS"][i]}
+            if used != cu_nonempty:
+                probs.append("UPUS marks %s used, UPRP has data in %s" % (sorted(used ^ cu_nonempty)[:5], "other slots"))
+        if b"SWNM" in first:
+            for i, v in enumerate(fields_of(layouts[b"SWNM"], first[b"SWNM"])["_switch_string_ids"]):
+                chk_str(v, "switch %d" % i)
+        if b"WAV " in first:
+            for i, v in enumerate(fields_of(layouts[b"WAV "], first[b"WAV "])["_wav_string_ids"]):
+                chk_str(v, "wav %d" % i)
+        for nm in (b"UNIS", b"UNIx"):
+            if nm in first:
+                for i, v in enumerate(fields_of(layouts[nm], first[nm])["_unit_string_ids"]):
+                    chk_str(v, "unit %d" % i)
+        for n, _, p in chunks:
+            if n != b"TRIG" or len(p) % layouts[b"TRIG"]["trigSize"]:
+                continue
+            for ti, t in enumerate(fields_of(layouts[b"TRIG"], p)["triggers"]):
+                for kind, recs, idf in (("c", t["conds"], "_condition_id"), ("a", t["acts"], "_action_id")):
+                    for r in recs:
+                        if r[idf] == 0:
+                            break
+                        m = rf[kind].get(r[idf])
+                        if m is None or r["_mask_flag"] == 0x4353:
+                            continue
+                        for f, a in m.items():
+                            k = REF_KIND.get(a)
+                            v = r[f]
+                            if k == "loc" and v not in locs_nonempty:
+                                probs.append("trigger %d: %s refers to location %d, which is empty or out of range" % (ti, a, v))
+                            elif k == "str":
+                                chk_str(v, "trigger %d %s" % (ti, a))
+                            elif k == "switch" and v > 255:
+                                probs.append("trigger %d: switch %d out of range" % (ti, v))
+                            elif k == "cuwp" and v not in cu_nonempty:
+                                probs.append("trigger %d: unit-property slot %d is empty or out of range" % (ti, v))
+    except RefError as e:
+        probs.append("unreadable section: %s" % e)
+    return probs
